@@ -959,7 +959,8 @@ theorem ingestAll_ok (hist : List Delivery) (q : List (BList × Nat)) (ifName : 
       exact cacheProv_addOrUpdate hist acc.cache ⟨now, ifName, ifIdx, r⟩ (hd r List.mem_cons_self) forUs h1
     · exact ingestOne_noRes q ifName ifIdx now forUs acc r h2
 
-theorem noRes_hostFoundOuts (s : State) (c : Cache) (changes : List (Nat × BList)) : NoRes (hostFoundOuts s c changes) := by
+theorem noRes_hostFoundOuts (s : State) (c : Cache) (now : Nat) (changes : List (Nat × BList)) :
+    NoRes (hostFoundOuts s c now changes) := by
   refine ⟨?_, ?_⟩
   · intro ch r h
     simp only [hostFoundOuts, List.mem_flatMap] at h
@@ -982,7 +983,7 @@ theorem ok_handleResponse (hist : List Delivery) (s : State) (now : Nat) (intf :
     (fun r hr => hd _ (List.mem_map.mpr ⟨r, hr, rfl⟩)) h noRes_nil
   unfold handleResponse PhaseOk
   simp only [resolveUpdated_cache, addTimers_cache]
-  refine ⟨hing.1, OutsOk.append (OutsOk.append hing.2.ok (noRes_hostFoundOuts _ _ _).ok) ?_⟩
+  refine ⟨hing.1, OutsOk.append (OutsOk.append hing.2.ok (noRes_hostFoundOuts _ _ _ _).ok) ?_⟩
   exact outsOk_resolveUpdated _ _ now _ (by simpa using hing.1)
 
 theorem ok_handleRead (hist : List Delivery) (s : State) (now : Nat) (p : Packet)
